@@ -440,7 +440,7 @@ func c12(c *Ctx) {
 	}
 
 	// ---- R12.W ----------------------------------------------------------------------------------
-	r.Rule("R12.W", "Store replaces the whole file (WriteFile / Create / OpenFile with O_TRUNC / write-then-rename): the last store wins byte for byte", 1)
+	r.Rule("R12.W", "Store replaces the whole file (WriteFile / Create / OpenFile with O_TRUNC / write-then-rename) and every exit that may report success passes the write: the last store wins byte for byte", 2)
 	if f := c.P.Func(load.SessPkg, "*genericFileSessionLoader", "Store"); f != nil {
 		verdict, detail := "", ""
 		for _, cs := range an.Calls(f) {
@@ -462,6 +462,30 @@ func c12(c *Ctx) {
 				}
 				_ = oTrunc
 			}
+		}
+		// a Store that reports success has written: every exit that may return nil passes a write call
+		var writes []ssa.Instruction
+		for _, cs := range an.Calls(f) {
+			switch cs.Name {
+			case "io/ioutil.WriteFile", "os.WriteFile", "os.Create", "os.Rename", "os.OpenFile", "(*os.File).Write":
+				writes = append(writes, cs.Instr)
+			}
+		}
+		nExit := 0
+		for _, b := range f.Blocks {
+			ret, ok := b.Instrs[len(b.Instrs)-1].(*ssa.Return)
+			if !ok || len(ret.Results) != 1 || an.NonNilError(ret.Results[0], b) {
+				continue
+			}
+			nExit++
+			passed := false
+			for _, w := range writes {
+				if an.InstrDominates(w, ret) {
+					passed = true
+				}
+			}
+			r.Check(passed, "R12.W", sprintf("store:success-means-written#%d", nExit), c.pos(ret.Pos()),
+				"an exit of Store that may report success is reached without any write of the file: the caller believes the session is saved (a skipped write keeps whatever the file held)")
 		}
 		switch verdict {
 		case "ok":
